@@ -14,7 +14,7 @@
    (C11_registered_spec).  No hypothesis on histories: repeats, removals of unknown pairs
    and unparsable crontabs are all included. *)
 From Coq Require Import Permutation Sorted.
-From Verif Require Import Common C11_Model C11_Spec C11_Proofs C11_Hm C11_HmSpec C11_HmProofs C11_IdProofs C11_StartSpec C11_StartProofs.
+From Verif Require Import Common C11_Model C11_Spec C11_Proofs C11_Hm C11_HmSpec C11_HmProofs C11_IdProofs C11_StartSpec C11_StartProofs C11_QModel C11_QSpec C11_QProofs.
 
 (* the whole decidable predicate P of C11_Spec (cron entries after every operation of a
    system of hooks sharing one manager; per-hook answers to every firing - a string
@@ -541,3 +541,97 @@ Example C11_start_hyp_met :
   /\ valid_of (i_invalid ex_start) c2 = true
   /\ P_start ex_start (run_model ex_start) = true.
 Proof. repeat split; vm_compute; reflexivity. Qed.
+
+(* ---- WHERE the tasks of a firing end up (C11_QModel, C11_QSpec, C11_QProofs) ----
+   "... exactly one task for every enabled schedule binding with that crontab ... PLACED IN THAT
+   BINDING'S QUEUE": a statement about the contents of the queues of the operator's TaskQueueSet
+   after the events handler (ManagerEventsHandler.Start) has moved the tasks of the firing - for
+   several enabled bindings, of one hook and of several, on the SAME crontab with DIFFERENT queue
+   settings (main, named queues, two bindings sharing a named queue, one binding per queue), so
+   that one firing makes one task per binding, each for another queue.
+   [q_create hooks] = the queues bootstrapMainQueue and initAndStartHookQueues make; [q_handle] =
+   the loop of the events handler (the queue is looked up for every task); [run_q] observes the
+   contents of every queue after every operation. *)
+
+(* the predicate of the queues class - everything P_op_start demands, and after every operation
+   every queue holds what it held before followed, firing after firing, by exactly the tasks of
+   the enabled bindings with the fired crontab whose queue it is (and every such binding's queue
+   exists) - holds of the model on EVERY input: all configurations, all sequences of operations *)
+Theorem C11_queues_P_holds : forall i, P_q (load_input i) (run_qop i) = true.
+Proof. exact P_q_holds. Qed.
+Print Assumptions C11_queues_P_holds.
+
+(* the same for any case whose binding ids are distinct within each hook *)
+Theorem C11_queues_Q_holds : forall i, ids_distinct (i_hooks i) = true -> Q i (run_q i) = true.
+Proof. exact Q_holds. Qed.
+Print Assumptions C11_queues_Q_holds.
+
+(* in words: after ANY sequence of operations the queue named q - "main" or the queue of some
+   binding, enabled or not - holds exactly those tasks of all firings handled so far
+   ([fired_tasks]: per firing one task per binding with that crontab of the hooks enabled at that
+   moment) whose binding names q, in the order of the firings, and nothing else; no other queue
+   exists *)
+Theorem C11_queue_holds_exactly_its_bindings_tasks : forall i ops q,
+  ids_distinct (i_hooks i) = true ->
+  q_lookup q (queues_after i (sys_init i) (q_create (i_hooks i)) ops)
+  = if mem_N q (main_q :: map b_queue (concat (i_hooks i)))
+    then Some (in_queue q (fired_tasks i (sys_init i) (spec_init (i_hooks i)) ops))
+    else None.
+Proof. exact queue_contents. Qed.
+Print Assumptions C11_queue_holds_exactly_its_bindings_tasks.
+
+(* no task ever sits in a queue it does not name, and the queue it sits in is the queue of one
+   of the hooks' bindings *)
+Theorem C11_no_task_in_a_foreign_queue : forall i ops q ts t,
+  ids_distinct (i_hooks i) = true ->
+  q_lookup q (queues_after i (sys_init i) (q_create (i_hooks i)) ops) = Some ts ->
+  In t ts ->
+  st_queue t = q /\ exists b, In b (concat (i_hooks i)) /\ b_queue b = q.
+Proof. exact queue_holds_only_its_own. Qed.
+Print Assumptions C11_no_task_in_a_foreign_queue.
+
+(* [queues_after] is what the run observes after its last operation *)
+Theorem C11_observed_queues_are_the_queues : forall i ops s m,
+  last (map q_queues (run_q_from i s m ops)) m = queues_after i s m ops.
+Proof. exact run_q_last. Qed.
+Print Assumptions C11_observed_queues_are_the_queues.
+
+(* moving the tasks of one firing: with distinct queue names each task is appended to the queue
+   it names and to no other - whatever the other tasks of the same firing name *)
+Theorem C11_each_task_of_a_firing_to_its_own_queue : forall ts m,
+  NoDup (map fst m) ->
+  q_place ts m = map (fun p => (fst p, snd p ++ in_queue (fst p) ts)) m.
+Proof. exact q_place_closed. Qed.
+Print Assumptions C11_each_task_of_a_firing_to_its_own_queue.
+
+(* non-vacuity: hook 0 has a binding in "main" and one in queue 1, hook 1 one in queue 2, all on
+   crontab c2.  One firing makes three tasks for three queues; after hook 0 is disabled a firing
+   makes one.  The hypotheses are met, the queues hold what is said - and an observation in which
+   the tasks of the first firing all sit in the queue of the first one is rejected by Q. *)
+Definition ex_queues : input :=
+  mkIn [ [mkB 11 c2 301 0 false [] 0; mkB 12 c2 302 0 false [] 1]; [mkB 13 c2 303 0 false [] 2] ]%N
+       [] [c2] [OEnable 0; OEnable 1; OTick 0; ODisable 0; OTickAll]%N.
+Definition ex_queues_bad : list qobs :=
+  match run_q ex_queues with
+  | a :: b :: c :: _ =>   (* the first three operations; the third observation altered *)
+      [a; b; mkQobs (q_hobs c) [(0, h_tasks (q_hobs c)); (1, []); (2, [])]%N]
+  | l => l
+  end.
+
+Example C11_queues_hyp_met :
+  ids_distinct (i_hooks ex_queues) = true
+  /\ NoDup (map fst (q_create (i_hooks ex_queues)))
+  /\ map q_queues (run_q ex_queues)
+     = (let t1 := task_of_binding 0 (mkB 11 c2 301 0 false [] 0) in
+        let t2 := task_of_binding 0 (mkB 12 c2 302 0 false [] 1) in
+        let t3 := task_of_binding 1 (mkB 13 c2 303 0 false [] 2) in
+        [ [(0, []); (1, []); (2, [])]; [(0, []); (1, []); (2, [])];
+          [(0, [t1]); (1, [t2]); (2, [t3])]; [(0, [t1]); (1, [t2]); (2, [t3])];
+          [(0, [t1]); (1, [t2]); (2, [t3; t3])] ])%N
+  /\ Q ex_queues (run_q ex_queues) = true
+  /\ Q_from ex_queues (spec_init (i_hooks ex_queues)) (q_create (i_hooks ex_queues))
+            [OEnable 0; OEnable 1; OTick 0]%N ex_queues_bad = false.
+Proof.
+  split; [vm_compute; reflexivity|]. split; [apply (proj1 (q_create_ok _))|].
+  repeat split; vm_compute; reflexivity.
+Qed.
